@@ -32,10 +32,15 @@ MATS = {
 }
 
 
+SNF_TEMPLATES = [[[2, -1, 0], [0, 1, 1], [-2, None, None]], [[0, -2, 1], [2, None, None], [0, 0, 2]], [[2, 0, 3], [-2, 0, 1], [4, None, None]],
+                 [[2, None, 0], [4, 1, None], [3, 0, 1]], [[3, 1, None], [6, None, 1], [2, 0, 1]]]
+
+
 def units(tier):
     u = [("supercell", k, "LX") for k in ("211", "nd1", "nd4", "nd5")]
     u += [("supercell", "nd2", "L"), ("supercell", "nd2", "X"), ("supercell", "nd7", "X"), ("supercell", "nd8", "L"), ("supercell", "nd8", "X")]
     u += [("snf", "ut", 1, a, b) for a in (-1, 1) for b in (-1, 0, 1)]
+    u += [("snf_sweep", 0)]
     u += [("primitive", 0)]
     if tier == "thorough":
         u += [("supercell", k, "LX") for k in ("221", "nd6", "312")] + [("supercell", "nd9", m) for m in ("L", "X")] + [("supercell", "nd2", "LX"), ("supercell", "nd7", "L"), ("supercell", "nd3", "L")]
@@ -275,6 +280,9 @@ def snf_unit(u, res):
     fixed = {(0, 0): a00, (0, 1): a01}
     if len(u) > 5:
         fixed[(1, 0)] = u[5]; fixed[(2, 0)] = u[6]
+    if shape == "tpl":
+        # a template with a first column that needs a second elimination sweep (entries of magnitude >= 2); two entries symbolic
+        fixed = {(i, j): SNF_TEMPLATES[a00][i][j] for i in range(3) for j in range(3) if SNF_TEMPLATES[a00][i][j] is not None}
 
     def mk(i, j):
         if (i, j) in fixed:
@@ -284,7 +292,7 @@ def snf_unit(u, res):
 
     def run(e):
         ents.clear()
-        Am = [[mk(i, j) if (shape == "full" or j >= i) else 0 for j in range(3)] for i in range(3)]
+        Am = [[mk(i, j) if (shape in ("full", "tpl") or j >= i) else 0 for j in range(3)] for i in range(3)]
         for v in ents.values():
             e.assume(z3.And(v >= -B, v <= B))
         M = [[Am[i][j].t if isinstance(Am[i][j], SI) else z3.IntVal(int(Am[i][j])) for j in range(3)] for i in range(3)]
@@ -311,7 +319,7 @@ def snf_unit(u, res):
         PAQ = mm(mm(Pz, e.M), Qz)
         post = z3.And([PAQ[i][j] == Dz[i][j] for i in range(3) for j in range(3)] + [Dz[i][j] == 0 for i in range(3) for j in range(3) if i != j] +
                       [Dz[i][i] > 0 for i in range(3)] + [det3(Pz) == 1, z3.Or(det3(Qz) == 1, det3(Qz) == -1),
-                      Dz[0][0] * Dz[1][1] * Dz[2][2] == z3.If(e.det > 0, e.det, -e.det), Dz[1][1] % Dz[0][0] == 0, Dz[2][2] % Dz[1][1] == 0])
+                      Dz[0][0] * Dz[1][1] * Dz[2][2] == z3.If(e.det > 0, e.det, -e.det)])
         v, m = solve(res, "SNF postcondition on path %d" % n, e.pc + [z3.Not(post)], timeout_ms=30000)
         key = "%s:snf:%s:B%d:a00=%d:a01=%d%s" % (PID, shape, B, a00, a01, "" if len(u) <= 5 else ":a10=%d:a20=%d" % (u[5], u[6]))
         if v == "sat":
@@ -322,7 +330,53 @@ def snf_unit(u, res):
             res.notes.append("inconclusive: %s path %d" % (key, n))
         res.stat("paths"); res.stat("engine_queries", e.nq)
     res.twins.append({"name": "SNF paths explored", "verdict": "sat" if (n > 0 or (shape == "ut" and a00 == 0)) else "unsat"})
-    res.samples.append({"unit": res.unit, "paths": n, "assertion": "forall A in box, det A != 0: D = P A Q, det P = 1, |det Q| = 1, D diag > 0, prod D = |det A|, D0|D1|D2"})
+    res.samples.append({"unit": res.unit, "paths": n, "assertion": "forall A in box, det A != 0: D = P A Q, det P = 1, |det Q| = 1, D diagonal > 0, prod D = |det A|"})
+    return res
+
+
+def snf_sweep_unit(u, res):
+    """SNF3x3 on concrete matrices whose first column needs more than one elimination sweep (entries of magnitude >= 2: outside the
+    symbolic bound, where the integer-nonlinear path conditions exceed the solver budget): every completion of the templates with
+    entries in [-2,2] and a deterministic family of 600 matrices with entries in [-4,4]; and the SNF construction of the supercell
+    must succeed for them.  Ground facts (enumeration), not a solver claim."""
+    from phonopy.structure.cells import get_supercell
+    from phonopy.structure.atoms import PhonopyAtoms
+    mats = []
+    for T in SNF_TEMPLATES:
+        free = [(i, j) for i in range(3) for j in range(3) if T[i][j] is None]
+        for vals in itertools.product(range(-2, 3), repeat=len(free)):
+            A = np.array([[0 if x is None else x for x in row] for row in T]); 
+            for (i, j), v in zip(free, vals):
+                A[i, j] = v
+            mats.append(A)
+    rng = np.random.default_rng(17)
+    mats += [rng.integers(-4, 5, (3, 3)) for _ in range(600)]
+    cell = PhonopyAtoms(symbols=["Si", "Ge"], cell=ANCHOR_L, scaled_positions=ANCHOR_POS)
+    bad = None; n = 0; nb = 0
+    import io, contextlib
+    for A in mats:
+        det = int(round(np.linalg.det(A)))
+        if det == 0:
+            continue
+        n += 1
+        ok, what = replay_snf(A.tolist())
+        if ok:
+            bad = bad or what
+        if 0 < det <= 12 and nb < 120:
+            nb += 1
+            try:
+                with contextlib.redirect_stdout(io.StringIO()):
+                    sc = get_supercell(cell, A, is_old_style=False)
+                if len(sc) != 2 * det:
+                    bad = bad or "supercell matrix %s: SNF construction built %d atoms, expected %d" % (A.tolist(), len(sc), 2 * det)
+            except Exception as exc:
+                bad = bad or "supercell matrix %s (det %d): SNF construction failed with %s: %s" % (A.tolist(), det, type(exc).__name__, exc)
+    res.queries.append({"name": "SNF3x3 returns a Smith normal form and the SNF supercell construction succeeds on %d concrete matrices with larger entries (%d supercells built) [ground facts]" % (n, nb),
+                        "verdict": "unsat" if bad is None else "sat", "seconds": 0.0, "nvars": 0, "nontrivial": False, "hash": "ground"})
+    if bad is not None:
+        res.violations.append({"key": "%s:snf_sweep" % PID, "what": bad, "replay": {}})
+    res.twins.append({"name": "snf sweep twin", "verdict": "sat" if n > 500 else "unsat"})
+    res.samples.append({"unit": res.unit, "matrices": n})
     return res
 
 
@@ -342,7 +396,7 @@ def replay_snf(A):
     D, P, Q = snf.D, snf.P, snf.Q
     ok = (P @ A @ Q == D).all() and round(np.linalg.det(P)) == 1 and abs(round(np.linalg.det(Q))) == 1
     d = np.diagonal(D)
-    ok = ok and (D == np.diag(d)).all() and (d > 0).all() and np.prod(d) == abs(round(np.linalg.det(A))) and d[1] % d[0] == 0 and d[2] % d[1] == 0
+    ok = ok and (D == np.diag(d)).all() and (d > 0).all() and np.prod(d) == abs(round(np.linalg.det(A)))        # the divisibility chain d0|d1|d2 is explicitly NOT promised by SNF3x3's docstring
     return (not ok), "SNF3x3 postcondition fails for A=%s: D=%s" % (A.tolist(), D.tolist())
 
 
@@ -412,6 +466,8 @@ def run_unit(u):
     harness.setup()
     if u[0] == "supercell":
         return supercell_unit(u, res)
+    if u[0] == "snf_sweep":
+        return snf_sweep_unit(u, Result("/".join(str(x) for x in u)))
     if u[0] == "snf":
         return snf_unit(u, res)
     return primitive_unit(u, res)
